@@ -362,9 +362,24 @@ theorem itemsBy_ideal {sem : Sem} {st : Store} (hi : Inv sem st) (l : Layer) (ss
   · rintro ⟨row, ⟨⟨s, hs, hrow⟩, ht⟩, rfl⟩
     exact ⟨⟨l, s, row⟩, ⟨hi.layerComplete l s (hm s hs) row hrow, ⟨rfl, hs⟩, ht⟩, rfl⟩
 
+theorem mem_dedupS {s : Scanner} : ∀ {l : List Scanner}, s ∈ dedupS l ↔ s ∈ l
+  | [] => by simp [dedupS]
+  | x :: rest => by
+    simp only [dedupS, List.mem_cons, List.mem_filter, mem_dedupS (l := rest)]
+    constructor
+    · rintro (h | ⟨h, _⟩)
+      · exact Or.inl h
+      · exact Or.inr h
+    · intro h
+      by_cases hx : s = x
+      · exact Or.inl hx
+      · rcases h with h | h
+        · exact absurd h hx
+        · exact Or.inr ⟨h, by simpa using hx⟩
+
 theorem mem_scanners (cfg : Cfg) (s : Scanner) :
     s ∈ cfg.scanners ↔ ∃ eco, eco ∈ cfg ∧ (s ∈ eco.ps ∨ s ∈ eco.ds ∨ s ∈ eco.rs ∨ s ∈ eco.fs) := by
-  simp only [Cfg.scanners, List.mem_append, List.mem_flatMap]
+  simp only [Cfg.scanners, mem_dedupS, List.mem_append, List.mem_flatMap]
   constructor
   · rintro (((⟨e, he, h⟩ | ⟨e, he, h⟩) | ⟨e, he, h⟩) | ⟨e, he, h⟩)
     · exact ⟨e, he, Or.inl h⟩
